@@ -19,8 +19,7 @@ func (d doc) expand(n int) string {
 func worldCheckMain(args []string) {
 	bad := 0
 	delims := runDelims(12345)
-	worlds := append([]*world{}, parseWorlds...)
-	worlds = append(worlds, worldCallbacks, worldDurations, worldMisc)
+	worlds := robustWorlds
 	for _, w := range worlds {
 		for _, gen := range []bool{false, true} {
 			if gen && (w.hasGen == nil || !w.hasGen()) {
